@@ -46,14 +46,14 @@ type boundedResult struct {
 	secs                                          float64
 }
 
-func runBounded(verif string, b *BoundedCfg, thorough bool) *boundedResult {
+func runBounded(verif, repo string, b *BoundedCfg, thorough bool) *boundedResult {
 	res := &boundedResult{}
 	env := b.Quick
 	if thorough {
 		env = b.Thorough
 	}
 	cmd := exec.Command(filepath.Join(verif, "bounded", "run.sh"), b.Pkg, filepath.Join(verif, b.TestFile), b.Test)
-	cmd.Env = os.Environ()
+	cmd.Env = append(os.Environ(), "VERIF_REPO="+repo)
 	for k, v := range env {
 		cmd.Env = append(cmd.Env, k+"="+v)
 	}
@@ -130,6 +130,7 @@ func cmdCheck(mode string, args []string) {
 	prop := fs.String("prop", "", "property id")
 	tier := fs.String("tier", "quick", "quick | thorough")
 	timeout := fs.Int("timeout", 0, "per-solver timeout (default 10 quick / 60 thorough)")
+	selftest := fs.Bool("selftest", false, "inner run of the seeded-change self-test: no evidence, no replay files")
 	fs.Parse(args)
 	if *prop == "" {
 		fmt.Fprintln(os.Stderr, "missing -prop")
@@ -180,7 +181,12 @@ func cmdCheck(mode string, args []string) {
 
 	violations := 0
 	replayDir := filepath.Join(*verif, "replays", *prop)
-	os.RemoveAll(replayDir)
+	if !*selftest {
+		os.RemoveAll(replayDir)
+	}
+	if *selftest {
+		replayDir = filepath.Join(os.TempDir(), "govc-selftest-replays")
+	}
 	report := func(obl, reason, output string, noInput bool) {
 		violations++
 		os.MkdirAll(replayDir, 0o755)
@@ -294,7 +300,7 @@ func cmdCheck(mode string, args []string) {
 			}
 			if !generated[n] {
 				switch classOf(n) {
-				case "post", "pre", "callsite", "inv-init", "inv-pres", "variant", "vacuity", "regex":
+				case "post", "pre", "callsite", "inv-init", "inv-pres", "variant", "vacuity", "regex", "frame":
 					// a contract clause that can no longer be attached to the code (its call site,
 					// loop or function shape is gone): the claimed obligation cannot be re-established
 					report(n, "contract-derived obligation is no longer generated from the changed code (the call site / loop / clause it was attached to is gone)", "", true)
@@ -383,7 +389,7 @@ func cmdCheck(mode string, args []string) {
 	// ---- bounded stand-in (real code, stated bound; never counted as proved) ----
 	var bres *boundedResult
 	if cfg.Bounded != nil {
-		bres = runBounded(*verif, cfg.Bounded, thorough)
+		bres = runBounded(*verif, *repo, cfg.Bounded, thorough)
 		if !bres.ran {
 			violations++
 			os.MkdirAll(replayDir, 0o755)
@@ -416,7 +422,19 @@ func cmdCheck(mode string, args []string) {
 		fmt.Fprintln(os.Stderr, "no claimed obligations (empty lock): nothing is established")
 		os.Exit(2)
 	}
+	if *selftest {
+		fmt.Printf("SELFTEST-RESULT property=%s violations=%d\n", *prop, violations)
+		if violations > 0 {
+			os.Exit(1)
+		}
+		return
+	}
+	var seedRes []map[string]interface{}
+	if thorough && os.Getenv("VERIF_NO_SELFTEST") == "" {
+		seedRes = runSeedSelftest(*verif, *repo, *prop)
+	}
 	writeEvidence(*verif, &cfg, *tier, p, vcs, jobs, time.Since(t0).Seconds(), violations, "", r, &evidenceExtra{
+		seeds: seedRes,
 		locked: nLocked, discharged: discharged, skipped: skipped, undecidedNew: undecidedNew, refutedNew: refutedNew, unclaimed: unclaimed, lemmas: lemmaRes, known: knownOpen, lockedSet: locked, bounded: bres,
 	})
 	fmt.Printf("property %s: %d/%d claimed obligations discharged, %d unclaimed, %d new-undecided, %d new-refuted, %.1fs\n",
@@ -535,6 +553,65 @@ type evidenceExtra struct {
 	known                       map[string]KnownFinding
 	lockedSet                   map[string]bool
 	bounded                     *boundedResult
+	seeds                       []map[string]interface{}
+}
+
+// runSeedSelftest (thorough tier): every seeded change kept for this property under
+// /verif/seeded/<prop>-*/patch.diff is applied to a scratch COPY of the repository working tree and the
+// quick check is run on that copy: it must report a violation there. The result is evidence about the
+// sensitivity of the check (coverage.selftest_seeds); it never changes the verdict on the real tree.
+func runSeedSelftest(verif, repo, prop string) []map[string]interface{} {
+	var out []map[string]interface{}
+	patches, _ := filepath.Glob(filepath.Join(verif, "seeded", prop+"-*", "patch.diff"))
+	sort.Strings(patches)
+	self, err := os.Executable()
+	if err != nil {
+		return nil
+	}
+	for _, pf := range patches {
+		seed := filepath.Base(filepath.Dir(pf))
+		rec := map[string]interface{}{"seed": seed}
+		tmp, err := os.MkdirTemp("", "govc-seed-")
+		if err != nil {
+			continue
+		}
+		cp := exec.Command("sh", "-c", fmt.Sprintf("cd %q && tar -c --exclude=.git . | tar -x -C %q", repo, tmp))
+		if b, err := cp.CombinedOutput(); err != nil {
+			rec["error"] = "copy failed: " + trunc(string(b), 200)
+			out = append(out, rec)
+			os.RemoveAll(tmp)
+			continue
+		}
+		ap := exec.Command("patch", "-p1", "-s", "-d", tmp, "-i", pf)
+		if b, err := ap.CombinedOutput(); err != nil {
+			rec["applies"] = false
+			rec["note"] = "patch does not apply to the current working tree: " + trunc(string(b), 200)
+			out = append(out, rec)
+			os.RemoveAll(tmp)
+			continue
+		}
+		rec["applies"] = true
+		t0 := time.Now()
+		ck := exec.Command(self, "check", "-prop", prop, "-tier", "quick", "-repo", tmp, "-verif", verif, "-selftest")
+		b, _ := ck.CombinedOutput()
+		n := 0
+		var first string
+		for _, l := range strings.Split(string(b), "\n") {
+			if strings.HasPrefix(l, "VIOLATION") {
+				n++
+				if first == "" {
+					first = trunc(l, 300)
+				}
+			}
+		}
+		rec["violations"] = n
+		rec["caught"] = n > 0
+		rec["first"] = first
+		rec["seconds"] = time.Since(t0).Seconds()
+		out = append(out, rec)
+		os.RemoveAll(tmp)
+	}
+	return out
 }
 
 func writeEvidence(verif string, cfg *PropConfig, tier string, p *Program, vcs []*FuncVC, jobs []*OblResult, wall float64, violations int, fatal string, r *Runner, ex *evidenceExtra) {
@@ -638,6 +715,9 @@ func writeEvidence(verif string, cfg *PropConfig, tier string, p *Program, vcs [
 		}
 		cov["unclaimed"] = ur
 		cov["lemmas"] = len(ex.lemmas)
+		if ex.seeds != nil {
+			cov["selftest_seeds"] = ex.seeds
+		}
 	} else {
 		cov["explanation"] = fatal
 		cov["obligations"] = 1
